@@ -175,6 +175,51 @@ struct Emitter<'a> {
     m:        &'a Module,
     sigs:     Vec<Sig>,
     nimports: u32,
+    /// Shadow counting (`emit_counted`): 1 = cost schedule V0, 2 = V1. Every instruction is
+    /// preceded by `i64.const <its scheduled cost>; call $count`.
+    count:    Option<u8>,
+    /// Arity (0/1) of the enclosing labels, outermost (the function) first.
+    labels:   std::cell::RefCell<Vec<u64>>,
+    /// Index of the i32 scratch local of the function being emitted (counting mode).
+    scratch:  std::cell::Cell<u32>,
+}
+
+/// Frozen copy of the protocol cost schedule (metering_transformation.rs, cost_v0 / cost_v1) for the
+/// instructions the emitter produces whose cost does not depend on context.
+fn static_cost(op: u8, cfg: u8) -> u64 {
+    let v0 = cfg == 1;
+    let (unop, binop, mul) = if v0 { (3, 4, 5) } else { (1, 1, 2) };
+    match op {
+        0x00 => 0,                                 // unreachable
+        0x01 => 1,                                 // nop
+        0x02 | 0x03 | 0x05 | 0x0b => 0,            // block, loop, else, end
+        0x04 => if v0 { 10 } else { 4 },           // if = TEST + JUMP
+        0x0d => if v0 { 10 } else { 4 },           // br_if (static part)
+        0x1a => if v0 { 2 } else { 0 },            // drop
+        0x1b => if v0 { 3 } else { 2 },            // select
+        0x20 | 0x21 | 0x22 => if v0 { 3 } else { 0 },
+        0x23 | 0x24 => if v0 { 3 } else { 1 },
+        0x28..=0x35 => if v0 { 4 } else { 1 },     // loads
+        0x36 => if v0 { 8 } else { 2 },            // i32.store
+        0x37 => if v0 { 10 } else { 2 },           // i64.store
+        0x3a => if v0 { 5 } else { 2 },            // i32.store8
+        0x3b => if v0 { 8 } else { 2 },            // i32.store16
+        0x3c => if v0 { 7 } else { 2 },            // i64.store8
+        0x3d => if v0 { 9 } else { 2 },            // i64.store16
+        0x3e => if v0 { 10 } else { 2 },           // i64.store32
+        0x3f => if v0 { 4 } else { 1 },            // memory.size
+        0x40 => 10,                                // memory.grow (constant part)
+        0x41 | 0x42 => if v0 { 2 } else { 0 },     // const
+        0x45 | 0x50 => unop,                       // eqz
+        0x46..=0x4f | 0x51..=0x5a => binop,        // comparisons
+        0x67..=0x69 | 0x79..=0x7b => unop,         // clz ctz popcnt
+        0x6a | 0x6b | 0x7c | 0x7d => binop,        // add sub
+        0x6c..=0x70 | 0x7e..=0x82 => mul,          // mul div rem
+        0x71..=0x78 | 0x83..=0x8a => binop,        // and or xor shl shr rot
+        0xa7 | 0xac | 0xad => unop,                // wrap / extend
+        0xc0..=0xc4 => unop,                       // sign extension
+        _ => panic!("static_cost: opcode {:#x} is not produced by the emitter", op),
+    }
 }
 
 impl Emitter<'_> {
@@ -187,41 +232,112 @@ impl Emitter<'_> {
         }
     }
 
+    /// counting mode: `i64.const c; call $count`
+    fn bump(&self, c: u64, o: &mut Vec<u8>) {
+        if self.count.is_some() && c > 0 {
+            o.push(0x42);
+            leb_i(c as i64, o);
+            o.push(0x10);
+            leb_u((self.nimports - 1) as u64, o);
+        }
+    }
+
+    /// Emit an opcode whose cost is context free.
+    fn op(&self, b: u8, o: &mut Vec<u8>) {
+        if let Some(cfg) = self.count {
+            self.bump(static_cost(b, cfg), o);
+        }
+        o.push(b);
+    }
+
+    fn push_label(&self, arity: u64) { self.labels.borrow_mut().push(arity) }
+
+    fn pop_label(&self) { self.labels.borrow_mut().pop(); }
+
+    fn label_arity(&self, depth: u32) -> u64 {
+        let l = self.labels.borrow();
+        l[l.len() - 1 - depth as usize]
+    }
+
+    /// Cost of a taken jump to a label of the given arity.
+    fn branch_cost(&self, arity: u64) -> u64 {
+        match self.count {
+            Some(1) => 8 + arity,
+            _ => 2,
+        }
+    }
+
+    fn br(&self, d: u32, o: &mut Vec<u8>) {
+        self.bump(self.branch_cost(self.label_arity(d)), o);
+        o.push(0x0c);
+        leb_u(d as u64, o);
+    }
+
+    /// `br_if d` with the condition on the stack: static cost, plus the jump cost when taken.
+    fn br_if(&self, d: u32, o: &mut Vec<u8>) {
+        if let Some(cfg) = self.count {
+            self.bump(static_cost(0x0d, cfg), o);
+            let t = self.scratch.get();
+            o.push(0x22);
+            leb_u(t as u64, o); // local.tee scratch
+            o.push(0x20);
+            leb_u(t as u64, o); // local.get scratch
+            o.push(0x45);
+            o.push(0x45); // i32.eqz; i32.eqz  -> 0/1
+            o.push(0xad); // i64.extend_i32_u
+            o.push(0x42);
+            leb_i(self.branch_cost(self.label_arity(d)) as i64, o);
+            o.push(0x7e); // i64.mul
+            o.push(0x10);
+            leb_u((self.nimports - 1) as u64, o);
+        }
+        o.push(0x0d);
+        leb_u(d as u64, o);
+    }
+
+    fn call_cost(&self, sig: &Sig, indirect: bool) -> u64 {
+        let (a, r) = (sig.params.len() as u64, sig.result.is_some() as u64);
+        match self.count {
+            Some(1) => 26 + a + r + if indirect { 2 + a + r } else { 0 },
+            _ => 6 + a + r + if indirect { 2 + (a + r) / 10 } else { 0 },
+        }
+    }
+
     fn expr(&self, e: &Expr, o: &mut Vec<u8>) {
         match e {
             Expr::I32(v) => {
-                o.push(0x41);
+                self.op(0x41, o);
                 leb_i(*v as i64, o);
             }
             Expr::I64(v) => {
-                o.push(0x42);
+                self.op(0x42, o);
                 leb_i(*v, o);
             }
             Expr::LocalGet(i) => {
-                o.push(0x20);
+                self.op(0x20, o);
                 leb_u(*i as u64, o);
             }
             Expr::LocalTee(i, e) => {
                 self.expr(e, o);
-                o.push(0x22);
+                self.op(0x22, o);
                 leb_u(*i as u64, o);
             }
             Expr::GlobalGet(i) => {
-                o.push(0x23);
+                self.op(0x23, o);
                 leb_u(*i as u64, o);
             }
             Expr::Un(op, a) => {
                 self.expr(a, o);
-                o.push(*op);
+                self.op(*op, o);
             }
             Expr::Bin(op, a, b) => {
                 self.expr(a, o);
                 self.expr(b, o);
-                o.push(*op);
+                self.op(*op, o);
             }
             Expr::Load(op, off, a) => {
                 self.expr(a, o);
-                o.push(*op);
+                self.op(*op, o);
                 leb_u(0, o); // alignment
                 leb_u(*off as u64, o);
             }
@@ -229,6 +345,7 @@ impl Emitter<'_> {
                 for a in args {
                     self.expr(a, o);
                 }
+                self.bump(self.call_cost(&self.m.funcs[*f as usize].sig, false), o);
                 o.push(0x10);
                 leb_u((self.nimports + *f) as u64, o);
             }
@@ -236,6 +353,7 @@ impl Emitter<'_> {
                 for a in args {
                     self.expr(a, o);
                 }
+                self.bump(self.call_cost(&self.m.imports[*f as usize].sig, false), o);
                 o.push(0x10);
                 leb_u(*f as u64, o);
             }
@@ -244,48 +362,52 @@ impl Emitter<'_> {
                     self.expr(a, o);
                 }
                 self.expr(idx, o);
+                self.bump(self.call_cost(&self.sigs[*s as usize], true), o);
                 o.push(0x11);
                 leb_u(*s as u64, o);
                 o.push(0x00);
             }
             Expr::If(ty, c, ts, te, es, ee) => {
                 self.expr(c, o);
-                o.push(0x04);
+                self.op(0x04, o);
                 o.push(ty.byte());
+                self.push_label(1);
                 self.stmts(ts, o);
                 self.expr(te, o);
                 o.push(0x05);
                 self.stmts(es, o);
                 self.expr(ee, o);
                 o.push(0x0b);
+                self.pop_label();
             }
             Expr::Block(ty, body, early, res) => {
                 o.push(0x02);
                 o.push(ty.byte());
+                self.push_label(1);
                 self.stmts(body, o);
                 if let Some((v, c)) = early {
                     self.expr(v, o);
                     self.expr(c, o);
-                    o.push(0x0d);
-                    leb_u(0, o);
-                    o.push(0x1a);
+                    self.br_if(0, o);
+                    self.op(0x1a, o);
                 }
                 self.expr(res, o);
                 o.push(0x0b);
+                self.pop_label();
             }
             Expr::Select(a, b, c) => {
                 self.expr(a, o);
                 self.expr(b, o);
                 self.expr(c, o);
-                o.push(0x1b);
+                self.op(0x1b, o);
             }
             Expr::MemorySize => {
-                o.push(0x3f);
+                self.op(0x3f, o);
                 o.push(0x00);
             }
             Expr::MemoryGrow(e) => {
                 self.expr(e, o);
-                o.push(0x40);
+                self.op(0x40, o);
                 o.push(0x00);
             }
         }
@@ -301,29 +423,30 @@ impl Emitter<'_> {
         match s {
             Stmt::LocalSet(i, e) => {
                 self.expr(e, o);
-                o.push(0x21);
+                self.op(0x21, o);
                 leb_u(*i as u64, o);
             }
             Stmt::GlobalSet(i, e) => {
                 self.expr(e, o);
-                o.push(0x24);
+                self.op(0x24, o);
                 leb_u(*i as u64, o);
             }
             Stmt::Store(op, off, a, v) => {
                 self.expr(a, o);
                 self.expr(v, o);
-                o.push(*op);
+                self.op(*op, o);
                 leb_u(0, o);
                 leb_u(*off as u64, o);
             }
             Stmt::Drop(e) => {
                 self.expr(e, o);
-                o.push(0x1a);
+                self.op(0x1a, o);
             }
             Stmt::Call(f, args) => {
                 for a in args {
                     self.expr(a, o);
                 }
+                self.bump(self.call_cost(&self.m.funcs[*f as usize].sig, false), o);
                 o.push(0x10);
                 leb_u((self.nimports + *f) as u64, o);
             }
@@ -331,72 +454,85 @@ impl Emitter<'_> {
                 for a in args {
                     self.expr(a, o);
                 }
+                self.bump(self.call_cost(&self.m.imports[*f as usize].sig, false), o);
                 o.push(0x10);
                 leb_u(*f as u64, o);
             }
             Stmt::If(c, t, e) => {
                 self.expr(c, o);
-                o.push(0x04);
+                self.op(0x04, o);
                 o.push(0x40);
+                self.push_label(0);
                 self.stmts(t, o);
                 if !e.is_empty() {
                     o.push(0x05);
                     self.stmts(e, o);
                 }
                 o.push(0x0b);
+                self.pop_label();
             }
             Stmt::Block(b) => {
                 o.push(0x02);
                 o.push(0x40);
+                self.push_label(0);
                 self.stmts(b, o);
                 o.push(0x0b);
+                self.pop_label();
             }
             Stmt::BrIf(d, c) => {
                 self.expr(c, o);
-                o.push(0x0d);
-                leb_u(*d as u64, o);
+                self.br_if(*d, o);
             }
-            Stmt::Br(d) => {
-                o.push(0x0c);
-                leb_u(*d as u64, o);
-            }
+            Stmt::Br(d) => self.br(*d, o),
             Stmt::Loop(local, count, body) => {
-                o.push(0x41);
+                self.op(0x41, o);
                 leb_i(*count as i64, o);
-                o.push(0x21);
+                self.op(0x21, o);
                 leb_u(*local as u64, o);
                 o.push(0x03);
                 o.push(0x40);
+                self.push_label(0);
                 self.stmts(body, o);
-                o.push(0x20);
+                self.op(0x20, o);
                 leb_u(*local as u64, o);
-                o.push(0x41);
+                self.op(0x41, o);
                 leb_i(1, o);
-                o.push(0x6b); // i32.sub
-                o.push(0x22);
+                self.op(0x6b, o); // i32.sub
+                self.op(0x22, o);
                 leb_u(*local as u64, o);
-                o.push(0x0d);
-                leb_u(0, o);
+                self.br_if(0, o);
                 o.push(0x0b);
+                self.pop_label();
             }
             Stmt::Spin(body) => {
                 o.push(0x03);
                 o.push(0x40);
+                self.push_label(0);
                 self.stmts(body, o);
-                o.push(0x0c);
-                leb_u(0, o);
+                self.br(0, o);
                 o.push(0x0b);
+                self.pop_label();
             }
             Stmt::Switch(idx, arms) => {
                 // block $out { block $a(n-1) { … block $a0 { idx; br_table 0 1 … n-1 n(default) } arm0; br $out } … }
                 let n = arms.len();
                 o.push(0x02);
                 o.push(0x40); // $out
+                self.push_label(0);
                 for _ in 0..n {
                     o.push(0x02);
                     o.push(0x40);
+                    self.push_label(0);
                 }
                 self.expr(idx, o);
+                // br_table: bounds check plus a jump to a label of the default's arity (0)
+                self.bump(
+                    match self.count {
+                        Some(1) => 2 + 8,
+                        _ => 2 + 3 + 2,
+                    },
+                    o,
+                );
                 o.push(0x0e);
                 leb_u(n as u64, o);
                 for i in 0..n {
@@ -405,30 +541,59 @@ impl Emitter<'_> {
                 leb_u(n as u64, o); // default: $out
                 for (i, arm) in arms.iter().enumerate() {
                     o.push(0x0b); // end of block $a_i
+                    self.pop_label();
                     self.stmts(arm, o);
                     // jump to $out: remaining enclosing arm blocks = n-1-i
-                    o.push(0x0c);
-                    leb_u((n - 1 - i) as u64, o);
+                    self.br((n - 1 - i) as u32, o);
                 }
                 o.push(0x0b);
+                self.pop_label();
             }
             Stmt::Return(e) => {
                 if let Some(e) = e {
                     self.expr(e, o);
                 }
+                // priced like a jump to the outermost label
+                let arity = self.labels.borrow()[0];
+                self.bump(self.branch_cost(arity), o);
                 o.push(0x0f);
             }
             Stmt::Unreachable => o.push(0x00),
-            Stmt::Nop => o.push(0x01),
+            Stmt::Nop => self.op(0x01, o),
         }
     }
 }
 
-pub fn emit(m: &Module) -> Vec<u8> {
+pub fn emit(m: &Module) -> Vec<u8> { emit_with(m, None) }
+
+/// The same module with shadow counting: an extra import `env.count : i64 -> ()` (the last import)
+/// receives, before every instruction, that instruction's cost under schedule `cfg` (1 = V0, 2 = V1),
+/// at every function entry the cost of its declared locals, and at every `br_if` the jump cost when
+/// (and only when) the branch is taken. Apart from the counting calls and one scratch local per
+/// function the program is the same, so an unmetered run of it follows the same path as a metered
+/// run of the original and the host ends up with "the cost schedule summed over the executed
+/// instructions".
+pub fn emit_counted(m: &Module, cfg: u8) -> Vec<u8> {
+    let mut m2 = m.clone();
+    m2.imports.push(Import {
+        module: "env".into(),
+        name:   "count".into(),
+        sig:    Sig {
+            params: vec![Ty::I64],
+            result: None,
+        },
+    });
+    emit_with(&m2, Some(cfg))
+}
+
+fn emit_with(m: &Module, count: Option<u8>) -> Vec<u8> {
     let mut em = Emitter {
         m,
         sigs: m.sigs.clone(),
         nimports: m.imports.len() as u32,
+        count,
+        labels: std::cell::RefCell::new(Vec::new()),
+        scratch: std::cell::Cell::new(0),
     };
     let import_sigs: Vec<u32> = m.imports.iter().map(|i| em.sig_index(&i.sig)).collect();
     let func_sigs: Vec<u32> = m.funcs.iter().map(|f| em.sig_index(&f.sig)).collect();
@@ -575,35 +740,58 @@ pub fn emit(m: &Module) -> Vec<u8> {
                     locals.push(t);
                 }
             }
-            leb_u(locals.len() as u64, &mut body);
+            // entry cost: the declared locals (parameters excluded), as the metered original declares them
+            let entry_cost = match count {
+                Some(1) => 4 * locals.len() as u64,
+                _ => locals.len() as u64 / 16,
+            };
+            if count.is_some() {
+                em.scratch.set((f.sig.params.len() + locals.len()) as u32);
+                locals.push(Ty::I32);
+            }
+            // run-length groups of equal types
+            let mut groups: Vec<(u32, Ty)> = Vec::new();
             for l in &locals {
-                leb_u(1, &mut body);
+                match groups.last_mut() {
+                    Some((n, t)) if *t == *l && count.is_none() => *n += 1,
+                    _ => groups.push((1, *l)),
+                }
+            }
+            leb_u(groups.len() as u64, &mut body);
+            for (n, l) in &groups {
+                leb_u(*n as u64, &mut body);
                 body.push(l.byte());
             }
+            em.labels.borrow_mut().clear();
+            em.push_label(f.sig.result.is_some() as u64);
+            em.bump(entry_cost, &mut body);
             em.stmts(&f.body, &mut body);
             if let Some(r) = &f.ret {
                 em.expr(r, &mut body);
             }
             if epilogue {
                 if f.sig.result.is_some() {
-                    body.push(0x21);
+                    em.op(0x21, &mut body);
                     leb_u(epi_local as u64, &mut body);
                 }
                 let base = m.epilogue_addr.unwrap();
                 for (gi, g) in m.globals.iter().enumerate() {
-                    body.push(0x41);
+                    em.op(0x41, &mut body);
                     leb_i((base + 8 * gi as u32) as i64, &mut body);
-                    body.push(0x23);
+                    em.op(0x23, &mut body);
                     leb_u(gi as u64, &mut body);
-                    body.push(match g.ty {
-                        Ty::I32 => 0x36,
-                        Ty::I64 => 0x37,
-                    });
+                    em.op(
+                        match g.ty {
+                            Ty::I32 => 0x36,
+                            Ty::I64 => 0x37,
+                        },
+                        &mut body,
+                    );
                     leb_u(0, &mut body);
                     leb_u(0, &mut body);
                 }
                 if f.sig.result.is_some() {
-                    body.push(0x20);
+                    em.op(0x20, &mut body);
                     leb_u(epi_local as u64, &mut body);
                 }
             }
